@@ -233,23 +233,36 @@ def export_lines(sol, solver, im, work, idx, k):
         if (r['Task name'], list(r['Allocated Resources']), int(r['Start']), int(r['End']), int(r['Duration']), bool(r['Scheduled'])) != \
                 (name, list(t.assigned_resources), t.start, t.end, t.duration, t.scheduled):
             probs.append(('dataframe_mismatch', name))
-    # --- JSON ---
-    js = json.loads(sol.to_json())
-    for name, t in sol.tasks.items():
-        j = js['tasks'].get(name)
-        if j is None or (j['start'], j['end'], j['duration'], j['scheduled'], j['assigned_resources']) != \
-                (t.start, t.end, t.duration, t.scheduled, list(t.assigned_resources)):
-            probs.append(('json_task_mismatch', name))
-    for name, r in sol.resources.items():
-        j = js['resources'].get(name)
-        if j is None or [tuple(a) for a in j['assignments']] != [tuple(a) for a in r.assignments]:
-            probs.append(('json_resource_mismatch', name))
-    for name, b in sol.buffers.items():
-        j = js['buffers'].get(name)
-        if j is None or j['level'] != list(b.level) or j['level_change_times'] != list(b.level_change_times):
-            probs.append(('json_buffer_mismatch', name))
-    if js['indicators'] != dict(sol.indicators) or js['horizon'] != sol.horizon:
-        probs.append(('json_indicator_mismatch', ''))
+    # --- JSON --- (indented and compact text, string and file)
+    for compact in (False, True):
+        tag = '_compact' if compact else ''
+        try:
+            text = sol.to_json(compact=compact)
+            fnj = os.path.join(work, 'sol_%d_%d_%d%s.json' % (os.getpid(), idx, k, tag))
+            sol.to_json_file(fnj, compact=compact)
+            if open(fnj).read() != text:
+                probs.append(('json_file_differs_from_string' + tag, ''))
+            os.remove(fnj)
+            js = json.loads(text)
+        except Exception as e:
+            probs.append(('json_export_failed' + tag, type(e).__name__))
+            continue
+        MISSING = object()
+        for name, t in sol.tasks.items():
+            jt = js.get('tasks', {}).get(name)
+            if jt is None or tuple(jt.get(f, MISSING) for f in ('start', 'end', 'duration', 'scheduled', 'assigned_resources')) != \
+                    (t.start, t.end, t.duration, t.scheduled, list(t.assigned_resources)):
+                probs.append(('json_task_mismatch' + tag, name))
+        for name, r in sol.resources.items():
+            jr = js.get('resources', {}).get(name)
+            if jr is None or 'assignments' not in jr or [tuple(a) for a in jr['assignments']] != [tuple(a) for a in r.assignments]:
+                probs.append(('json_resource_mismatch' + tag, name))
+        for name, b in sol.buffers.items():
+            jb = js.get('buffers', {}).get(name)
+            if jb is None or jb.get('level', MISSING) != list(b.level) or jb.get('level_change_times', MISSING) != list(b.level_change_times):
+                probs.append(('json_buffer_mismatch' + tag, name))
+        if js.get('indicators', MISSING) != dict(sol.indicators) or js.get('horizon', MISSING) != sol.horizon:
+            probs.append(('json_indicator_mismatch' + tag, ''))
     # --- Excel ---
     fn = os.path.join(work, 'sol_%d_%d_%d.xlsx' % (os.getpid(), idx, k))
     sheets = None
